@@ -12,6 +12,7 @@ import (
 
 	"github.com/Fantom-foundation/lachesis-base/gossip/basestream"
 	"github.com/Fantom-foundation/lachesis-base/gossip/basestream/basestreamseeder"
+	"github.com/Fantom-foundation/lachesis-base/utils/workers"
 
 	"verifharness/vu"
 )
@@ -201,7 +202,161 @@ func (w *c17World) pingsSeen() int {
 	return w.pings
 }
 
+// Extra case family: the REAL utils/workers pool with one worker (what every sender thread is),
+//   W <cap> ; e <id> ; g ; d ; q
+// e = Enqueue(task id) when it cannot block (TasksCount() < cap, or cap = 0 and the worker idle:
+// the rendezvous of an unbuffered channel), otherwise "e-"; tasks block on a gate; g = let the
+// running task return; d = Drain(); q (last) = close(quit), release everything, wait for the
+// worker.  Observation: e+/e- s<id> (task started) f<id> (returned) d<n> n<TasksCount> and X<ids>
+// for the tasks executed after quit (select chooses between quit and a queued task at random).
+// Compared with the extracted WorkersFifo.wstep.
+func c17RunPool(header []string, ops [][]string) []string {
+	capN, _ := strconv.Atoi(header[1])
+	quit := make(chan struct{})
+	var wg sync.WaitGroup
+	pool := workers.New(&wg, quit, capN)
+	pool.Start(1)
+	entered := make(chan int, 64)
+	gate := make(chan struct{})
+	finished := make(chan int, 64)
+	var free int32
+	var mu sync.Mutex
+	task := func(id int) func() {
+		return func() {
+			entered <- id
+			mu.Lock()
+			f := free
+			mu.Unlock()
+			if f == 0 {
+				<-gate
+			}
+			finished <- id
+		}
+	}
+	var obs []string
+	running := -1
+	queued := 0
+	waitStart := func() {
+		id := <-entered
+		running = id
+		obs = append(obs, "s"+strconv.Itoa(id))
+	}
+	releaseAll := func() { // open the gate for whatever is or gets blocked on it until the worker is gone
+		stop := make(chan struct{})
+		go func() {
+			for {
+				select {
+				case gate <- struct{}{}:
+				case <-stop:
+					return
+				}
+			}
+		}()
+		wg.Wait()
+		close(stop)
+	}
+	quitDone := false
+	for _, op := range ops {
+		if len(op) == 0 || quitDone {
+			continue
+		}
+		vu.Stat("pool_op_" + op[0])
+		switch op[0] {
+		case "e":
+			id, _ := strconv.Atoi(op[1])
+			room := pool.TasksCount() < capN || (capN == 0 && running < 0)
+			if !room {
+				obs = append(obs, "e-")
+				vu.Stat("pool_enqueue_would_block")
+			} else {
+				if err := pool.Enqueue(task(id)); err != nil {
+					panic("enqueue failed")
+				}
+				obs = append(obs, "e+")
+				if running < 0 {
+					waitStart()
+				} else {
+					queued++
+				}
+			}
+		case "g":
+			if running < 0 {
+				obs = append(obs, "g-")
+			} else {
+				gate <- struct{}{}
+				id := <-finished
+				obs = append(obs, "f"+strconv.Itoa(id))
+				running = -1
+				if queued > 0 {
+					queued--
+					waitStart()
+				}
+			}
+		case "d":
+			obs = append(obs, "d"+strconv.Itoa(pool.TasksCount()))
+			pool.Drain()
+			queued = 0
+		case "q":
+			quitDone = true
+			mu.Lock()
+			free = 1
+			mu.Unlock()
+			close(quit)
+			releaseAll()
+			close(finished)
+			var xs []string
+			for id := range finished {
+				xs = append(xs, strconv.Itoa(id))
+			}
+			obs = append(obs, "X"+strings.Join(xs, ","))
+		default:
+			panic("bad pool op")
+		}
+		obs = append(obs, "n"+strconv.Itoa(pool.TasksCount()))
+	}
+	if !quitDone { // every history ends with quit
+		mu.Lock()
+		free = 1
+		mu.Unlock()
+		close(quit)
+		releaseAll()
+		close(finished)
+		var xs []string
+		for id := range finished {
+			xs = append(xs, strconv.Itoa(id))
+		}
+		obs = append(obs, "X"+strings.Join(xs, ","), "n"+strconv.Itoa(pool.TasksCount()))
+	}
+	return obs
+}
+
+func c17GenPool(r *rand.Rand, emit func(...string)) {
+	in := []string{"W", strconv.Itoa(r.Intn(3))}
+	n := 2 + r.Intn(12)
+	id := 0
+	for i := 0; i < n; i++ {
+		switch x := r.Intn(10); {
+		case x < 5:
+			id++
+			in = append(in, ";", "e", strconv.Itoa(id))
+		case x < 8:
+			in = append(in, ";", "g")
+		case x < 9:
+			in = append(in, ";", "d")
+		default:
+			in = append(in, ";", "q")
+			emit(in...)
+			return
+		}
+	}
+	emit(in...)
+}
+
 func c17Run(input []string) []string {
+	if len(input) > 0 && input[0] == "W" {
+		h, o := c18Split(input)
+		return c17RunPool(h, o)
+	}
 	header, ops := c18Split(input)
 	if len(header) < 6 {
 		panic("bad header")
@@ -602,6 +757,9 @@ func c17Gen(r *rand.Rand, n int, tier string, emit func(...string)) {
 	emit(strings.Fields("2 1000 100 1000 4 6 0 1 1 1 1 1 2 1 1 3 1 1 4 1 1 5 1 1 ; r 1 1 0 9 1 100 0 ; r 1 1 0 9 1 100 1 ; r 1 2 0 9 1 100 1 ; r 1 3 0 9 1 100 1 ; r 1 1 0 9 1 100 1")...)
 	for i := 0; i < n; i++ {
 		c17GenOne(r, emit)
+	}
+	for i := 0; i < n/5; i++ {
+		c17GenPool(r, emit)
 	}
 	if tier == "thorough" {
 		// exhaustive small scope around the session table: one peer, session ids 1..4, requests
